@@ -108,8 +108,19 @@ example : (run { Skeleton.current with reqRespShapesOk := false } (init "id7" fa
       [.resolveOk, .start, .handlerReturns (.two (some "e")), .marshalOk, .respond]).map
     (fun s => s.responses) = some [("id7", "")] := by decide
 
+/-- a `utils.Call` that rewrites its result list (`ucResultsUntouched` flipped — e.g. "a zero-valued error is no
+    error", "typed nil is nil"): the handler returned an error, the response says success -/
+theorem C10_normalising_call_loses_the_error :
+    (run { Skeleton.current with ucResultsUntouched := false } (init "id7" false)
+      [.resolveOk, .start, .handlerReturns (.two (some "context deadline exceeded")), .marshalOk, .respond]).map
+    (fun s => s.responses) = some [("id7", "")] ∧
+    (run Skeleton.current (init "id7" false)
+      [.resolveOk, .start, .handlerReturns (.two (some "context deadline exceeded")), .marshalOk, .respond]).map
+    (fun s => s.responses) = some [("id7", "context deadline exceeded")] := by decide
+
 end Panrpc.Ce
 
+#print axioms Panrpc.Ce.C10_normalising_call_loses_the_error
 #print axioms Panrpc.Ce.C10_not_fatal
 #print axioms Panrpc.Ce.C10_not_fatal_enabled
 #print axioms Panrpc.Ce.C10_err_field
